@@ -306,12 +306,24 @@ def check(case, ctx):
         try:
             apply_prefs(prefs)
             out = d.cssText
+            nodes = []
+
+            def collect(rules):
+                for r in rules:
+                    nodes.append((r, r.cssText))
+                    if hasattr(r, 'cssRules') and r.type != r.IMPORT_RULE:
+                        collect(r.cssRules)
+
+            collect(d.cssRules)
         except Exception as e:  # noqa: BLE001
             raise Violation('crash:serialise:' + frame_sig(e), f'prefs {prefs}: {text[:300]!r}: {e!r}')
         finally:
             cssutils.ser.prefs.useDefaults()
         if d.cssText != default_out:
             raise Violation('defaults:not-restored', f'prefs {prefs}: {text[:200]!r}')
+        for r, t in nodes:
+            if not isinstance(t, str):
+                raise Violation('output:rule-text-not-a-string', f'prefs {prefs}: {type(r).__name__}.cssText is {t!r} ({text[:200]!r})')
         # well-formed
         with ErrCount() as ec:
             try:
